@@ -1390,7 +1390,7 @@ impl Prop for P {
     }
 
     fn gen(&self, rng: &mut Rng, tier: Tier, n: usize, emit: &mut dyn FnMut(String)) {
-        let n = default_n(tier, 1500, 15000, n);
+        let n = default_n(tier, 3000, 30000, n);
         boundary_ops(rng, tier, emit);
         let mut big = big_explicit_ops(rng, tier);
         let every = (n / (big.len() + 1)).max(1);
